@@ -45,10 +45,15 @@ pub mod ast {
     pub enum TypeAnnotation { Keyword(TypeKeyword), Array(Box<TypeAnnotation>) }
     pub struct TypeKeyword { pub kind: u8 }
     pub struct TypeAliasDeclaration { pub name: String, pub ty: TypeAnnotation }
+    pub struct ClassProperty { pub name: String, pub optional: bool }
 }
 pub mod backend {
     use super::ast::*;
     pub fn emit(n: u32) -> u32 { n + 1 }
+    // R1b control: an optional field generates no code
+    pub fn compile_field(p: &ClassProperty, ops: u32) -> u32 {
+        if p.optional { ops } else { emit(ops) + p.name.len() as u32 }
+    }
     pub fn compile(p: &Program) -> u32 {
         let mut ops = 0;
         for s in &p.body {
